@@ -158,7 +158,37 @@ class MetadataManager:
 
             try:
                 # PHASE 1: Validation (inside lock to prevent races)
-                current = self.refresh()
+                #
+                # On CAS backends the version hint is read TOGETHER with its ETag
+                # first, and validation runs against exactly the metadata file that
+                # read names. The conditional PUT at the commit point is keyed to
+                # this ETag, so it can only succeed while the hint still names the
+                # version that was validated. (Reading the ETag after validating
+                # left a window in which another committer could flip the hint: the
+                # later read then returned the NEW hint's ETag and the conditional
+                # PUT overwrote that commit - a lost update whenever the lock gave
+                # no exclusion.)
+                hint_etag: Optional[str] = None
+                filesystem_version: Optional[int] = None
+                previous_metadata_file: Optional[str] = None
+                current: Optional[TableMetadata] = None
+                validated_from_hint = False
+                if self.storage.supports_cas:
+                    try:
+                        hint_bytes, hint_etag = self.storage.read_file_with_etag(self.HINT_PATH)
+                        parsed = self._parse_hint_content(hint_bytes)
+                        if parsed is not None and self.storage.exists(
+                            f"{self.metadata_path}/{parsed[1]}"
+                        ):
+                            filesystem_version, previous_metadata_file = parsed
+                            current = self._read_metadata_file(
+                                f"{self.metadata_path}/{previous_metadata_file}"
+                            )
+                            validated_from_hint = True
+                    except FileNotFoundError:
+                        hint_etag = None
+                if not validated_from_hint:
+                    current = self.refresh()
 
                 # Check UUID consistency
                 if current and current.table_uuid != base_metadata.table_uuid:
@@ -190,19 +220,8 @@ class MetadataManager:
                     now_ms = current.last_updated_ms + 1
                 new_metadata.last_updated_ms = now_ms
 
-                # Read current version (and, on CAS backends, the hint's ETag so
-                # the commit point below can be a true compare-and-swap).
-                hint_etag: Optional[str] = None
-                filesystem_version: Optional[int] = None
-                previous_metadata_file: Optional[str] = None
-                if self.storage.supports_cas:
-                    try:
-                        hint_bytes, hint_etag = self.storage.read_file_with_etag(self.HINT_PATH)
-                        parsed = self._parse_hint_content(hint_bytes)
-                        if parsed is not None:
-                            filesystem_version, previous_metadata_file = parsed
-                    except FileNotFoundError:
-                        hint_etag = None
+                # Current version number (already known on CAS backends, where it
+                # came from the same read as the hint's ETag).
                 if filesystem_version is None:
                     info = self._current_version_info()
                     if info is not None:
